@@ -262,7 +262,17 @@ def c04_prepare(m01: int, m02: int, m12: int, m03: int, m13: int, m23: int) -> b
                 g.add_edge(nodes[i], nodes[j], [PositionalArg(i), KeywordArg("k", i), Dependency()][(k + j) % 3])
     preds = {j: [i for i in range(4) if mult.get((i, j), 0) > 0] for j in range(4)}
     succs = {i: [j for j in range(4) if mult.get((i, j), 0) > 0] for i in range(4)}
+    # an earlier run in the same process, over the SAME node objects with other edges (a plan that was extended and run again):
+    # nothing of it may leak into this call's result (every call returns containers of its own)
+    g0 = Graph()
+    for n in nodes:
+        g0.add_node(n)
+    for (i, j) in ((0, 1), (1, 2), (0, 3), (2, 3)):
+        g0.add_edge(nodes[i], nodes[j], Dependency())
+    first = prepare_nodes(g0)
     src, single, remaining = prepare_nodes(g)
+    if any(a is b for a, b in zip(first, (src, single, remaining))):
+        return False
     if [n.i for n in src] != [j for j in range(4) if not preds[j]]:
         return False
     if sorted(n.i for n in single) != [j for j in range(4) if len(preds[j]) == 1]:
